@@ -408,6 +408,18 @@ def literalValue (s : Str) : Option FV :=
     else dec
   | _ => dec
 
+
+/-- §15.7.4: the methods of Number.prototype throw a TypeError unless `this` is a Number or a Number object -/
+def numberMethodThis (k : ThisKind) : Bool :=
+  match k with
+  | .num => true
+  | .numObj => true
+  | _ => false
+
+/-- ToString of the value of a numeric literal / of parseInt's result -/
+def literalString (s : Str) : Option Str := (literalValue s).map toStringNum
+def parseIntString (s : Str) (a : Arg) : Str := toStringNum (parseInt s a)
+
 /-! ### deviation regions: decidable predicates over the REQUEST (never model ≠ spec) -/
 namespace Dev
 
@@ -447,6 +459,12 @@ def sigTie (m : Nat) (e : Int) (n : Nat) : Bool :=
   let (a, b) := scale10 num den ((n : Int) - decExp num den)
   isTie a b
 
+/-- ⌊x·10^(n−p)⌋ has exactly n digits (p = decExp): hypothesis `hq` of Thm.toExponential_full -/
+def scaledInRange (m : Nat) (e : Int) (n : Nat) : Bool :=
+  let (num, den) := ratOf m e
+  let (a, b) := scale10 num den ((n : Int) - decExp num den)
+  decide (0 < a / b ∧ a / b < 10 ^ n)
+
 def exp (x : FV) (a : Arg) : List String :=
   let f := argInt a
   match x with
@@ -458,9 +476,9 @@ def exp (x : FV) (a : Arg) : List String :=
         else if a.isDefined then (sigRoundUp m e ((intOf f).toNat + 1)).2
         else (shortestDigits m e).dp - 1
       (if m ≠ 0 ∧ a.isDefined ∧ (sigRoundUp m e ((intOf f).toNat + 1)).1.length ≠ (intOf f).toNat + 1 then ["digits_wf"] else []) ++
+      (if m ≠ 0 ∧ a.isDefined ∧ !scaledInRange m e ((intOf f).toNat + 1) then ["digits_wf"] else []) ++
       (if m ≠ 0 ∧ !a.isDefined ∧ !wfDec (shortestDigits m e) then ["digits_wf"] else []) ++
-      (if ex.natAbs < 10 then ["toExponential_exp2"] else []) ++
-      (if m ≠ 0 ∧ a.isDefined ∧ sigTie m e ((intOf f).toNat + 1) then ["toExponential_tie"] else [])
+      (if ex.natAbs < 10 then ["toExponential_exp2"] else [])
   | _ => []
 
 def prec (x : FV) (a : Arg) : List String :=
